@@ -1,8 +1,207 @@
-//! C09 puller-level sub-checks over transports (filled in with the network peers).
+//! C09 puller-level sub-checks: the blocking, async and WebSocket pullers against
+//! the library's producers on the blocking server and the WebSocket server.
+
+use super::c09::{self, Kind};
 use crate::engine::*;
+use crate::ensure;
+use crate::util::block_on_mt as block_on;
+use proptest::prelude::*;
+use repe::value_stream::*;
+use repe::{AsyncClient, AsyncServer, Client, Complex, Server, WebSocketClient, WebSocketServer};
+use serde::{Deserialize, Serialize};
 use serde_json::Value;
 
-pub fn run(_ctx: &Ctx, _rep: &Report) {}
-pub fn replay(sub: &str, _case: &Value) -> Result<(), Fail> {
-    Err(Fail::new("replay-unknown-sub", sub.to_string()))
+#[derive(Debug, Clone, Copy, Serialize, Deserialize, Hash, PartialEq, Eq)]
+pub enum Transport {
+    /// blocking Client -> Server
+    Sync,
+    /// AsyncClient -> AsyncServer
+    AsyncTcp,
+    /// WebSocketClient -> WebSocket server
+    Ws,
+}
+
+#[derive(Debug, Clone, Serialize, Deserialize, Hash, PartialEq, Eq)]
+pub struct Pull {
+    pub base: c09::Case,
+    pub transport: Transport,
+}
+
+enum Got {
+    Bytes(Vec<u8>),
+    Doc(c09::Doc),
+    F64(Vec<u64>),
+    Cplx(Vec<(u32, u32)>),
+}
+
+/// Stops the per-case server when the case ends (no listener, thread or task outlives it).
+enum Stop {
+    Tcp(std::net::TcpListener),
+    Task(tokio::task::JoinHandle<()>),
+    Ws(Option<tokio::sync::oneshot::Sender<()>>),
+}
+
+impl Drop for Stop {
+    fn drop(&mut self) {
+        match self {
+            // shutdown(2) on the listening socket makes the blocked accept return an error, which ends `serve`
+            Stop::Tcp(l) => unsafe {
+                use std::os::fd::AsRawFd;
+                libc::shutdown(l.as_raw_fd(), libc::SHUT_RDWR);
+            },
+            Stop::Task(h) => h.abort(),
+            Stop::Ws(tx) => {
+                if let Some(tx) = tx.take() {
+                    let _ = tx.send(());
+                }
+            }
+        }
+    }
+}
+
+fn serve(base: &c09::Case, transport: Transport) -> Result<(String, Stop), Fail> {
+    let router = c09::router_for(base);
+    let hl = |e: std::io::Error| Fail::new("harness-listen", e.to_string());
+    match transport {
+        Transport::Ws => block_on(async {
+            let l = WebSocketServer::listen("127.0.0.1:0").await.map_err(hl)?;
+            let addr = l.local_addr().unwrap();
+            let (tx, rx) = tokio::sync::oneshot::channel::<()>();
+            tokio::spawn(async move {
+                let _ = WebSocketServer::new(router)
+                    .on_error(|_| {})
+                    .serve_listener_with_shutdown(l, "/repe", async move {
+                        let _ = rx.await;
+                    })
+                    .await;
+            });
+            Ok((format!("ws://{addr}/repe"), Stop::Ws(Some(tx))))
+        }),
+        Transport::AsyncTcp => block_on(async {
+            let l = AsyncServer::listen("127.0.0.1:0").await.map_err(hl)?;
+            let addr = l.local_addr().unwrap();
+            let h = tokio::spawn(async move {
+                let _ = AsyncServer::new(router).serve(l).await;
+            });
+            Ok((addr.to_string(), Stop::Task(h)))
+        }),
+        Transport::Sync => {
+            let server = Server::new(router);
+            let l = server.listen("127.0.0.1:0").map_err(hl)?;
+            let keep = l.try_clone().map_err(hl)?;
+            let addr = l.local_addr().unwrap();
+            std::thread::spawn(move || {
+                let _ = server.serve(l);
+            });
+            Ok((addr.to_string(), Stop::Tcp(keep)))
+        }
+    }
+}
+
+pub fn check(p: &Pull) -> CheckResult {
+    let b = &p.base;
+    let failing = b.fail_after.is_some() && matches!(b.kind, Kind::Reader { .. } | Kind::Writer { .. });
+    let (addr, _stop) = serve(b, p.transport)?;
+    let res: Result<Got, String> = match p.transport {
+        Transport::Sync => (|| {
+            let cl = Client::connect(&addr).map_err(|e| e.to_string())?;
+            match b.kind {
+                Kind::Value => pull_value::<c09::Doc>(&cl, "res").map(Got::Doc),
+                Kind::Typed => pull_typed_slice::<f64>(&cl, "res").map(|v| Got::F64(v.iter().map(|x| x.to_bits()).collect())),
+                Kind::Complex => pull_complex_slice::<f32>(&cl, "res").map(|v| Got::Cplx(v.iter().map(|z| (z.re.to_bits(), z.im.to_bits())).collect())),
+                _ => pull_to_vec(&cl, "res").map(Got::Bytes),
+            }
+            .map_err(|e| e.to_string())
+        })(),
+        Transport::AsyncTcp => block_on(async {
+            let cl = AsyncClient::connect(&addr).await.map_err(|e| e.to_string())?;
+            match b.kind {
+                Kind::Value => pull_value_async::<c09::Doc, _>(&cl, "res").await.map(Got::Doc),
+                Kind::Typed => pull_typed_slice_async::<f64, _>(&cl, "res").await.map(|v| Got::F64(v.iter().map(|x| x.to_bits()).collect())),
+                Kind::Complex => pull_complex_slice_async::<f32, _>(&cl, "res").await.map(|v| Got::Cplx(v.iter().map(|z| (z.re.to_bits(), z.im.to_bits())).collect())),
+                _ => pull_to_vec_async(&cl, "res").await.map(Got::Bytes),
+            }
+            .map_err(|e| e.to_string())
+        }),
+        Transport::Ws => block_on(async {
+            let cl = WebSocketClient::connect(&addr).await.map_err(|e| e.to_string())?;
+            match b.kind {
+                Kind::Value => pull_value_async::<c09::Doc, _>(&cl, "res").await.map(Got::Doc),
+                Kind::Typed => pull_typed_slice_async::<f64, _>(&cl, "res").await.map(|v| Got::F64(v.iter().map(|x| x.to_bits()).collect())),
+                Kind::Complex => pull_complex_slice_async::<f32, _>(&cl, "res").await.map(|v| Got::Cplx(v.iter().map(|z| (z.re.to_bits(), z.im.to_bits())).collect())),
+                _ => pull_to_vec_async(&cl, "res").await.map(Got::Bytes),
+            }
+            .map_err(|e| e.to_string())
+        }),
+    };
+    if failing {
+        ensure!(
+            res.is_err(),
+            "pull-masks-producer-failure",
+            "{:?} {:?}: the producer failed after {:?} of {} bytes but the pull returned a value",
+            p.transport,
+            b.kind,
+            b.fail_after,
+            b.len
+        );
+        return Ok(CaseInfo::new(true).class(format!("{:?}", p.transport)).class("producer-failure"));
+    }
+    let got = res.map_err(|e| Fail::new("pull-failed", format!("{:?} {:?} len {} chunk {} zstd {}: {e}", p.transport, b.kind, b.len, b.chunk, b.zstd)))?;
+    match got {
+        Got::Bytes(v) => {
+            let l = c09::logical(b);
+            ensure!(v == l, "pulled-bytes-differ", "{}", crate::util::diff_msg("pulled bytes vs producer bytes", &v, &l));
+        }
+        Got::Doc(d) => ensure!(d == c09::doc(b.len, b.seed), "pulled-value-differs", "pulled value differs from the producer's"),
+        Got::F64(v) => {
+            let want: Vec<u64> = (0..b.len).map(|i| b.seed.wrapping_mul(i as u64 + 1)).collect();
+            ensure!(v == want, "pulled-elements-differ", "pulled f64 elements differ bit-for-bit ({} vs {})", v.len(), want.len());
+        }
+        Got::Cplx(v) => {
+            let want: Vec<(u32, u32)> = (0..b.len)
+                .map(|i| {
+                    let z = Complex {
+                        re: f32::from_bits((b.seed as u32).wrapping_mul(i as u32 + 1)),
+                        im: i as f32,
+                    };
+                    (z.re.to_bits(), z.im.to_bits())
+                })
+                .collect();
+            ensure!(v == want, "pulled-elements-differ", "pulled complex elements differ");
+        }
+    }
+    let l = c09::logical(b).len();
+    Ok(CaseInfo::new(l > b.chunk || l == 0 || (l > 0 && l % b.chunk == 0) || b.depth == 0)
+        .class(format!("{:?}", p.transport))
+        .class(match b.kind {
+            Kind::Value => "value",
+            Kind::Typed => "typed",
+            Kind::Complex => "complex",
+            Kind::Reader { .. } => "reader",
+            Kind::Writer { .. } => "writer",
+        }))
+}
+
+fn pull() -> BoxedStrategy<Pull> {
+    (c09::case(), prop::sample::select(vec![Transport::Sync, Transport::AsyncTcp, Transport::Ws]))
+        .prop_map(|(mut base, transport)| {
+            base.cancel_after = None;
+            // keep the number of round trips per case moderate
+            if base.chunk < 7 && base.len > 400 {
+                base.len = 400;
+            }
+            Pull { base, transport }
+        })
+        .boxed()
+}
+
+pub fn run(ctx: &Ctx, rep: &Report) {
+    run_prop(ctx, rep, "pullers", ctx.tier.pick(450, 9_000), &|| pull(), &check);
+}
+
+pub fn replay(sub: &str, case: &Value) -> Result<(), Fail> {
+    match sub {
+        "pullers" => replay_case::<Pull>(case, &check),
+        _ => Err(Fail::new("replay-unknown-sub", sub.to_string())),
+    }
 }
